@@ -8,6 +8,7 @@ import time
 import z3
 
 from . import engine, sym
+from . import loops  # noqa: mixes cut-point loops into Interp
 from .engine import (Ctx, Interp, Frame, Repo, explore, PyRaise, Unsupported, DeadPath, Oblig)
 from .sym import VInt, VBool, VBytes, VSeq, Chunk, mk_bool, zb, is_sym, IntS, BytesS, LBytesS
 
@@ -32,7 +33,11 @@ def harness_globals():
     import bits.bips.bip32, bits.bips.bip39, bits.bips.bip143, bits.bips.bip173, bits.bips.bip340, bits.bips.bip350  # noqa
     import bits.p2p, bits.config, bits.wallet.hd  # noqa
     import spec
-    return {"bits": bits, "spec": spec}
+    global _HG
+    if _HG is None:
+        from .contracts import forall, implies
+        _HG = {"bits": bits, "spec": spec, "forall": forall, "implies": implies}
+    return _HG
 
 
 def make_param(ctx, name, ty, inputs):
@@ -106,6 +111,16 @@ def make_param(ctx, name, ty, inputs):
     raise Unsupported(f"parameter type {ty!r}")
 
 
+def _cglobals(fr):
+    """Contract clauses see spec/bits first, then the globals of the function they are attached to."""
+    import collections
+    hg = harness_globals()
+    if fr.globals is hg:
+        return hg
+    return collections.ChainMap(hg, fr.globals)
+
+
+_HG = None
 _EXPR_CACHE = {}
 
 
@@ -125,12 +140,14 @@ def formula(it, src, fr):
 
     def run(cctx):
         sub = Interp(cctx, it.repo, it.specmods, it.contracts, it.modular, it.native_ok)
-        v = sub.eval(expr, Frame(dict(fr.locals), fr.globals, fr.fname))
+        v = sub.eval(expr, Frame(dict(fr.locals), _cglobals(fr), fr.fname))
         return sub.truth(v)
 
-    paths = explore(run, base_pc=base, parent=it.ctx, opts=it.ctx.opts)
+    paths = explore(run, base_pc=base, parent=it.ctx, opts=it.ctx.opts, base_tfacts=list(it.ctx.tfacts))
     disj = []
     for p in paths:
+        for tf in p.tfacts[p.ctx.n_base_tfacts:]:
+            it.ctx.assume_type(tf)
         if p.kind != "return":
             continue
         extra = p.pc[nbase:]
@@ -140,6 +157,10 @@ def formula(it, src, fr):
         parts = list(extra) + ([] if t is True else [zb(t)])
         disj.append(z3.And(*parts) if len(parts) != 1 else parts[0]) if parts else disj.append(z3.BoolVal(True))
     if not disj:
+        if paths and all(p.kind == "raise" for p in paths):
+            e = paths[0].exc
+            raise Unsupported(f"contract clause {src if isinstance(src, str) else ast.unparse(src)!r} is undefined: "
+                              f"raises {e.exc.__name__} ({e.msg!r}) on every path")
         return z3.BoolVal(False)
     return z3.simplify(z3.Or(*disj)) if len(disj) > 1 else z3.simplify(disj[0])
 
@@ -152,9 +173,13 @@ def value_of(it, src, fr):
 
     def run(cctx):
         sub = Interp(cctx, it.repo, it.specmods, it.contracts, it.modular, it.native_ok)
-        return sub.eval(expr, Frame(dict(fr.locals), fr.globals, fr.fname))
+        return sub.eval(expr, Frame(dict(fr.locals), _cglobals(fr), fr.fname))
 
-    paths = [p for p in explore(run, base_pc=base, parent=it.ctx, opts=it.ctx.opts) if p.kind == "return"]
+    allp = explore(run, base_pc=base, parent=it.ctx, opts=it.ctx.opts, base_tfacts=list(it.ctx.tfacts))
+    for p in allp:
+        for tf in p.tfacts[p.ctx.n_base_tfacts:]:
+            it.ctx.assume_type(tf)
+    paths = [p for p in allp if p.kind == "return"]
     if not paths:
         raise Unsupported(f"ghost definition {src!r} is undefined on this path")
     if len(paths) == 1:
@@ -195,6 +220,37 @@ def merge_values(it, cvs):
     raise Unsupported("cannot merge values of different shapes")
 
 
+def use_lemma(it, thm, tname, binding, fr):
+    """Assume the conclusion of another theorem (an obligation of the same run) at the given instantiation.
+    Its requires become obligations here; its harness body is evaluated with this theorem's modular callees,
+    so the results are the very values (pure-call memo) that the body of this theorem will see."""
+    from .contracts import REGISTRY
+    ctx = it.ctx
+    t1 = next((t for t in REGISTRY if t.name == tname), None)
+    if t1 is None:
+        raise Unsupported(f"unknown lemma theorem {tname}")
+    if not set(t1.modular) <= set(thm.modular):
+        raise Unsupported(f"lemma {tname} abstracts callees that {thm.name} does not")
+    lf = Frame({}, harness_globals(), "<lemma>")
+    for p in t1.params:
+        lf.locals[p] = value_of(it, binding[p], fr)
+    for r_ in t1.requires:
+        ctx.oblige(f"{thm.name}.uses.{tname}.pre", formula(it, r_, lf), {"kind": "lemma-pre", "clause": r_})
+    for k, src in t1.lets.items():
+        lf.locals[k] = value_of(it, src, lf)
+    try:
+        lf.locals["result"] = it.eval(parse_expr(t1.body), lf)
+    except PyRaise:
+        return
+    for case in t1.cases:
+        if case.raises is not None:
+            continue
+        w = formula(it, case.when, lf)
+        for cname, clause in case.clauses():
+            ctx.assume(z3.Implies(w, formula(it, clause, lf)))
+    ctx.notes["assumed_contracts"].add(tname + " (lemma)")
+
+
 class TheoremResult:
     def __init__(self, thm):
         self.thm = thm
@@ -208,7 +264,10 @@ class TheoremResult:
 
 
 def loopspecs_of(thm):
-    return dict(thm.loops)
+    from .contracts import LOOPS
+    d = dict(LOOPS)
+    d.update(thm.loops)
+    return d
 
 
 def generate(thm, all_contracts=None):
@@ -221,7 +280,18 @@ def generate(thm, all_contracts=None):
     opts = dict(thm.options)
     opts["loopspecs"] = loopspecs_of(thm)
     opts["thm"] = thm
-    contracts = all_contracts or {}
+    from . import specs
+    opts["extra_rules"] = specs.unfold_rules(thm)
+    contracts = all_contracts
+    if contracts is None:
+        contracts = {}
+        from .contracts import REGISTRY
+        for t in REGISTRY:
+            if t.options.get("contract_of"):
+                try:
+                    contracts[r.resolve(t.options["contract_of"])] = t
+                except Exception:  # noqa
+                    pass
 
     def run(ctx):
         ctx.inputs = []
@@ -234,6 +304,8 @@ def generate(thm, all_contracts=None):
             ctx.assume(formula(it, req, fr))
         for k, src in thm.lets.items():
             fr.locals[k] = value_of(it, src, fr)
+        for tname, binding in thm.uses:
+            use_lemma(it, thm, tname, binding, fr)
         ctx.pre_len = len(ctx.pc)
         try:
             result = it.eval(body, fr)
@@ -253,6 +325,12 @@ def generate(thm, all_contracts=None):
                     gl = formula(it, clause, fr)
                     ctx.oblige(f"{thm.name}.{case.name}.{cname}", z3.Implies(w, gl),
                                {"case": case.name, "clause": clause, "kind": "post"})
+                    if thm.options.get("chain"):
+                        # clauses are proved in order; an earlier clause (itself an obligation) may be used by later ones
+                        try:
+                            ctx.assume(z3.Implies(w, gl))
+                        except DeadPath:
+                            break
             elif outcome[0] == "raise" and exp_raise and issubclass(outcome[2].exc, case.raises):
                 ctx.oblige(f"{thm.name}.{case.name}.raises", z3.Implies(w, z3.BoolVal(True)),
                            {"case": case.name, "kind": "raises-ok"})
@@ -271,7 +349,7 @@ def generate(thm, all_contracts=None):
         res.unsupported = f"{type(u).__name__}: {u}"
         res.gen_s = time.time() - t0
         return res
-    res.paths = len(paths)
+    res.paths = len([p for p in paths if p.kind != "dead"])
     for pi, p in enumerate(paths):
         for o in p.obligs:
             o.meta["path"] = pi
